@@ -306,6 +306,8 @@ class Evaluator:
             ok = True
             for (p, _lab) in cfg.pred[cfg.exit.id]:
                 n = cfg.nodes[p]
+                if n.kind == "raise":
+                    continue            # an exit by exception returns nothing at all
                 if n.kind != "return" or n.ast.value is None or (isinstance(n.ast.value, ast.Constant) and n.ast.value.value is None):
                     ok = False
                 elif isinstance(n.ast.value, ast.Name):
@@ -927,6 +929,11 @@ class Frame:
         c = r.is_const()
         if c is not None:
             return TRUE if c != 0 else FALSE
+        if not r.is_array():
+            ats_ = r.atoms()
+            bare_ = len(ats_) == 1 and r.equals(Rat.from_atom(ats_[0]))
+            if (bare_ and ats_[0].kind == "fn" and ats_[0].name == "len") or (not bare_ and all(a_.kind == "sym" or a_.name in ("len", "abs", "sqrt", "at") for a_ in ats_)):
+                return canon_sign(r, OPS["!="])       # a number is true exactly when it is not zero (`if not len(x)` is `if len(x) == 0`)
         return g_atom(("truthy", r.key, str(r)))
 
     # -- expressions ---------------------------------------------------------
@@ -983,6 +990,12 @@ class Frame:
                 return Vec([ev.length_of(base), Rat.const(2)], "tuple") if isinstance(base, Vec) else anf.opaque("shape", ev.to_rat(base))
             if e.attr == "size":
                 return ev.length_of(base)
+            if e.attr == "ndim":
+                # the argument roles fix the rank: an array of points is (n, 2), a column / index array is one-dimensional
+                if isinstance(base, Vec) and base.kind == "point" and base.items and isinstance(base.items[0], Rat):
+                    return Rat.const(2 if base.items[0].is_array() else 1)
+                if isinstance(base, Rat) and base.is_array() and len(base.atoms()) == 1 and base.atoms()[0].kind == "sym":
+                    return Rat.const(1)
             return anf.opaque("attr:" + e.attr, ev.to_rat(base) if not isinstance(base, PW) else anf.opaque("pw", extra=repr(base.key)))
         if isinstance(e, ast.BinOp):
             op = _BINOPS.get(type(e.op))
@@ -1073,6 +1086,11 @@ class Frame:
             return Obj("dict", tuple((vkey(self.expr(k, env)), vkey(self.expr(v, env)), self.expr(v, env)) for k, v in zip(e.keys, e.values) if k is not None))
         if isinstance(e, ast.Starred):
             return self.expr(e.value, env)
+        if isinstance(e, ast.NamedExpr) and isinstance(e.target, ast.Name):
+            # (x := value): binds x in the enclosing function scope and is the value
+            v = self.expr(e.value, env, guard, stmt)
+            env[e.target.id] = v
+            return v
         raise Unsupported(f"expression {type(e).__name__}")
 
     def lk_resolve(self, node):
